@@ -157,15 +157,34 @@ def run_case(ck, desc):
 
     comp = dict(desc["comp"])
     dry = comp.pop("dryness")
+    comp_given = dict(comp)
     table = fluids.build_pvt_gas(comp, dry, maximum_pressure=desc["pmax"])
     ck.count("tables_built")
+    # the caller's mapping is the caller's: same keys, same order, same values after the call - and a second
+    # table built from the SAME mapping object (one dict per well, re-used for every sensitivity run) is
+    # the same table
+    if list(comp.items()) != list(comp_given.items()):
+        ck.violation("caller-mapping-unmodified", {"before": {k: comp_given[k] for k in list(comp_given)[:6]}, "after": {k: comp[k] for k in list(comp)[:6]}}, desc)
+        comp = dict(comp_given)
+    else:
+        again_ = fluids.build_pvt_gas(comp, dry, maximum_pressure=min(desc["pmax"], 400.0))
+        ck.count("tables_built_again_from_the_same_mapping")
+        if not np.array_equal(again_["pseudopressure"].to_numpy(), table["pseudopressure"].to_numpy()[: len(again_)]):
+            ck.violation("same-table-from-the-same-mapping", {"max_rel": float(np.max(np.abs(again_["pseudopressure"].to_numpy()[1:] / table["pseudopressure"].to_numpy()[1 : len(again_)] - 1)))}, desc)
     # the same gas as a labelled row of a wells table whose fields come in another order (lab reports
     # list N2, CO2, H2S) with further fields in between: every value is found by its LABEL
     import pandas as pd
 
     order = ["CO2", "Reservoir Temperature (deg F)", "N2", "Gas Specific Gravity", "H2S", "well", "county"]
     row = pd.Series({k: dict(comp, well="A-1", county="X").get(k) for k in order})
-    small = fluids.build_pvt_gas(row, dry, maximum_pressure=min(desc["pmax"], 400.0))
+    row_given = row.copy()
+    try:
+        small = fluids.build_pvt_gas(row, dry, maximum_pressure=min(desc["pmax"], 400.0))
+    except Exception as e:  # noqa: BLE001
+        ck.violation("builder-reads-the-gas-by-label", {"as": "pd.Series with fields in another order", "raised": repr(e)[:200]}, desc)
+        return True, None
+    if not row.equals(row_given) or list(row.index) != list(row_given.index):
+        ck.violation("caller-mapping-unmodified", {"as": "pd.Series", "labels_after": [str(k) for k in row.index]}, desc)
     ref_small = table.iloc[: len(small)]
     if len(small) != len(ref_small) or not np.array_equal(small["pseudopressure"].to_numpy(), ref_small["pseudopressure"].to_numpy()):
         ck.violation("builder-reads-the-gas-by-label", {"as": "pd.Series with fields in another order", "max_rel": float(np.max(np.abs(small["pseudopressure"].to_numpy()[1:] / ref_small["pseudopressure"].to_numpy()[1:] - 1))) if len(small) == len(ref_small) and len(small) > 1 else None}, desc)
